@@ -262,6 +262,24 @@ impl MaxSizeOf for u8 {
     #[verifier::external_body]
     fn max_size_of() -> (r: usize) { unimplemented!() }
 }
+/// likewise for the other integer primitives (so that code that aligns to one of them is
+/// decided rather than rejected)
+macro_rules! assumed_unit {
+    ($($t:ty => $n:expr),*) => {$(
+        verus! {
+        impl CopyType for $t {
+            type Copy = Zero;
+        }
+        impl MaxSizeOf for $t {
+            open spec fn unit() -> nat { $n }
+            #[verifier::external_body]
+            fn max_size_of() -> (r: usize) { unimplemented!() }
+        }
+        }
+    )*};
+}
+assumed_unit!(u16 => 2, u32 => 4, u64 => 8, u128 => 16, usize => 8, i8 => 1, i16 => 2, i32 => 4, i64 => 8, i128 => 16, isize => 8);
+
 /// a byte is its own memory image
 pub axiom fn axiom_image_u8()
     ensures forall|b: Seq<u8>| #[trigger] image_seq::<u8>(b) == b;
